@@ -61,6 +61,13 @@ class ContinueSig(Exception):
     pass
 
 
+class CutSig(Exception):
+    """end of the arbitrary iteration of a cut loop: unwinds to the enclosing vc.outcome"""
+
+    def __init__(self, loopname):
+        self.loopname = loopname
+
+
 class RaiseSig(Exception):
     """a Python exception raised by the interpreted program"""
 
@@ -84,6 +91,8 @@ class World:
         self.modules = {}
         self.asts = {}
         self.contracts = {}  # qualname -> spec FuncV
+        self.assumed_contracts = set()
+        self.broken_loops = {}
         self.loopspecs = {}  # (qualname, ordinal) -> LoopSpec
         self.funcs_by_qualname = {}
         self.source_files = {}
@@ -514,7 +523,7 @@ class Interp:
                     raise
             else:
                 self.exec_block(node.orelse, env)
-        except (PathAbort, VCError):
+        except (PathAbort, VCError, CutSig):
             raise
         except (RaiseSig, ReturnSig, BreakSig, ContinueSig) as sig:
             pending = sig
@@ -1007,6 +1016,8 @@ class Interp:
             if spec is not None and spec is not f:
                 self.ctx.note("by-contract", f.qualname)
                 return self.call_function(spec, args, kwargs, node, force_body=True)
+        if f.qualname in self.world.broken_loops:
+            raise OutsideSubset(self.world.broken_loops[f.qualname])
         if f.is_async:
             return CoroV(f, list(args), dict(kwargs))
         return self.run_function(f, args, kwargs, node)
